@@ -603,6 +603,75 @@ Qed.
 
 End Main.
 
+(* ---- the static fuel of the model is sufficient ---- *)
+Definition wt (ob : obj) : nat := match ob with Tree _ es => length es | Tag _ _ _ => 1 | _ => 0 end%nat.
+Definition wt_of (r : repo) (o : oid) : nat := match lookup r o with Some ob => wt ob | None => 0 end%nat.
+
+Lemma total_entries_eq r : total_entries r = list_sum (map (fun p => wt (snd p)) r).
+Proof.
+  induction r as [|[o ob] r IH]; [reflexivity|]. cbn [total_entries fold_right map list_sum snd].
+  fold (total_entries r). rewrite IH. destruct ob; cbn [wt]; unfold list_sum; lia.
+Qed.
+
+Lemma list_sum_filter_split {A} (f : A -> nat) (p : A -> bool) l :
+  list_sum (map f l) = (list_sum (map f (filter p l)) + list_sum (map f (filter (fun x => negb (p x)) l)))%nat.
+Proof. induction l as [|x l IH]; [reflexivity|]. cbn [map filter]. destruct (p x); cbn [negb map list_sum fold_right]; unfold list_sum in *; lia. Qed.
+
+Lemma sum_wt_le r : wf_b r = true -> forall l, NoDup l -> (forall o, In o l -> In o (ids r)) ->
+  (list_sum (map (wt_of r) l) <= total_entries r)%nat.
+Proof.
+  induction r as [|[o1 ob1] r IH]; intros Hwf l Hnd Hin.
+  - destruct l as [|x l]; [simpl; lia|]. exfalso. apply (Hin x). now left.
+  - apply wf_cons in Hwf. destruct Hwf as (H1 & H2 & H3).
+    rewrite (list_sum_filter_split (wt_of ((o1, ob1) :: r)) (fun o => N.eqb o o1) l).
+    assert (Ea : (list_sum (map (wt_of ((o1, ob1) :: r)) (filter (fun o => N.eqb o o1) l)) <= wt ob1)%nat).
+    { assert (G : forall l', NoDup l' -> (forall x, In x l' -> x = o1) -> (list_sum (map (wt_of ((o1, ob1) :: r)) l') <= wt ob1)%nat).
+      { intros l' Hnd' Hall. destruct l' as [|a [|b l'']]; cbn [map list_sum fold_right].
+        - lia.
+        - rewrite (Hall a (or_introl eq_refl)). unfold wt_of. cbn [lookup]. rewrite N.eqb_refl. lia.
+        - exfalso. inversion Hnd' as [|? ? Hna _]; subst. apply Hna. left.
+          rewrite (Hall a (or_introl eq_refl)), (Hall b (or_intror (or_introl eq_refl))). reflexivity. }
+      apply G; [now apply NoDup_filter|]. intros x Hx. apply filter_In in Hx. destruct Hx as [_ Hx]. now apply N.eqb_eq in Hx. }
+    assert (Eb : (list_sum (map (wt_of ((o1, ob1) :: r)) (filter (fun o => negb (N.eqb o o1)) l)) <= total_entries r)%nat).
+    { rewrite (map_ext_in' (wt_of ((o1, ob1) :: r)) (wt_of r)).
+      - apply IH; [assumption|now apply NoDup_filter|].
+        intros o Ho. apply filter_In in Ho. destruct Ho as [Ho Hne]. apply negb_true_iff, N.eqb_neq in Hne.
+        destruct (Hin o Ho) as [E|E]; [simpl in E; congruence|assumption].
+      - intros o Ho. apply filter_In in Ho. destruct Ho as [_ Hne]. apply negb_true_iff, N.eqb_neq in Hne.
+        unfold wt_of. now rewrite lookup_cons_ne. }
+    rewrite total_entries_eq in *. cbn [map snd]. change (list_sum (wt ob1 :: ?l)) with (wt ob1 + list_sum l)%nat.
+    cbn [list_sum fold_right]. unfold list_sum in *. apply Nat.add_le_mono; assumption.
+Qed.
+
+Lemma dentries_length blobs : forall es ds, dentries blobs es = Some ds -> length ds = length es.
+Proof.
+  induction es as [|e es IH]; intros ds H; simpl in H; [inversion H; reflexivity|].
+  destruct (dentries blobs es) as [ds'|]; [|discriminate].
+  destruct (entry_kind (e_mode e)); try (inversion H; subst; simpl; f_equal; now apply IH).
+  destruct (blobs (e_oid e)); [|discriminate]. inversion H; subst; simpl; f_equal; now apply IH.
+Qed.
+
+Lemma children_length_le {C P} (ds : list (dentry C P)) : (length (children C P ds) <= length ds)%nat.
+Proof. unfold children. induction ds as [|d ds IH]; [simpl; lia|]. cbn [flat_map]. rewrite app_length. destruct d; simpl; lia. Qed.
+
+Lemma tnch_le r blobs t : (tnch r blobs t <= wt_of r t)%nat.
+Proof.
+  unfold tnch, nchildren, TN, tnodes, wt_of. destruct (lookup r t) as [[| s es | |]|]; try lia.
+  destruct (dentries blobs es) as [ds|] eqn:E; [|lia]. cbn [wt]. rewrite <- (dentries_length blobs es ds E). apply children_length_le.
+Qed.
+
+Lemma gnch_le r g : (gnch r g <= wt_of r g)%nat.
+Proof.
+  unfold gnch, nchildren, GN, gnodes, wt_of. destruct (lookup r g) as [[| | |s t k]|]; try lia.
+  cbn [wt]. destruct k; simpl; lia.
+Qed.
+
+Lemma list_sum_le {A} (f g : A -> nat) l : (forall x, f x <= g x)%nat -> (list_sum (map f l) <= list_sum (map g l))%nat.
+Proof. intros H. induction l as [|x l IH]; [simpl; lia|]. cbn [map list_sum fold_right]. specialize (H x). unfold list_sum in *. lia. Qed.
+
+Lemma Lsum_empty {V P} ids : Lsum V P ids (empty_st V P) = 0%nat.
+Proof. unfold Lsum. induction ids as [|x l IH]; [reflexivity|]. cbn [map list_sum fold_right]. unfold list_sum in IH. rewrite IH. reflexivity. Qed.
+
 Lemma any_rec_false {V P} (s : st V P) l : (forall c, recs _ _ s c = None) -> any_rec s l = false.
 Proof. intros H. unfold any_rec. induction l as [|o l IH]; [reflexivity|]. cbn [existsb]. rewrite H, IH. reflexivity. Qed.
 
@@ -614,11 +683,8 @@ Proof. intros H. induction l as [|x l IH]; [reflexivity|]. cbn [map filter]. now
 
 Theorem scan_correct r enum roots names :
   wf_b r = true -> contract r (walked roots) enum -> small r ->
-  match scan r enum roots names with
-  | SOk evs => history_of evs = sat_census (spec_census r (walked roots)) (nrefs_of roots)
-  | SPanic m => m = P_FUEL
-  | SErr _ => False
-  end.
+  exists evs, scan r enum roots names = SOk evs /\
+              history_of evs = sat_census (spec_census r (walked roots)) (nrefs_of roots).
 Proof.
   intros Hwf Hct Hsmall.
   set (bs := filter (has_kind r KBlob) enum). set (ts := filter (has_kind r KTree) enum).
@@ -630,10 +696,17 @@ Proof.
   (* trees *)
   set (fuel := S (2 * total_entries r)).
   assert (Hnd_ts : NoDup ts) by (apply NoDup_filter, Hct).
+  assert (Hts_ids : forall t, In t ts -> In t (ids r)) by (intros t Ht; apply Hids; unfold ts in Ht; apply filter_In in Ht; tauto).
+  assert (Hfuel_t : (2 * (TLsum r empty_tst + list_sum (map (tnch r blobs) ts)) <= fuel)%nat).
+  { unfold TLsum, empty_tst. rewrite Lsum_empty.
+    pose proof (list_sum_le (tnch r blobs) (wt_of r) ts (tnch_le r blobs)).
+    pose proof (sum_wt_le r Hwf ts Hnd_ts Hts_ids) as H0. unfold fuel.
+    pose proof (Nat.le_trans _ _ _ H H0) as X. revert X.
+    generalize (list_sum (map (tnch r blobs) ts)) (total_entries r). intros a b X. lia. }
   pose proof (feed_trees_run r Hwf blobs fuel ts empty_tst (map (blob_ev r) bs) (fun _ => False)
                 (empty_inv _ _ _ _ _ _ _ _ _) Hnd_ts (fun _ _ H => H)
-                (fun t Ht => ts_nodes r enum roots Hwf Hct Hsmall blobs Hblobs t Ht)) as HT.
-  destruct (feed_trees fuel r blobs ts empty_tst (map (blob_ev r) bs)) as [[tstate ev2]|m|m]; try assumption.
+                (fun t Ht => ts_nodes r enum roots Hwf Hct Hsmall blobs Hblobs t Ht) Hfuel_t) as HT.
+  destruct (feed_trees fuel r blobs ts empty_tst (map (blob_ev r) bs)) as [[tstate ev2]|m|m]; try contradiction.
   destruct HT as (Hrun & tl & Htl & Hev2).
   assert (Hwfn : forall t, In t ts -> wf_node tcontrib bytes (TN r blobs) (ids r) t).
   { intros t Ht. destruct (ts_nodes r enum roots Hwf Hct Hsmall blobs Hblobs t Ht) as (ds & Hds).
@@ -684,9 +757,16 @@ Proof.
   assert (Hnd_gs : NoDup gs) by (apply NoDup_filter, Hct).
   assert (Hgn : forall g, In g gs -> exists ds, GN r g = Some ds).
   { intros g Hg. apply (in_gs r enum) in Hg. destruct Hg as (_ & s & t & k & Hl). unfold GN, gnodes. rewrite Hl. eauto. }
+  assert (Hgs_ids : forall t, In t gs -> In t (ids r)) by (intros t Ht; apply Hids; unfold gs in Ht; apply filter_In in Ht; tauto).
+  assert (Hfuel_g : (2 * (GLsum r empty_gst + list_sum (map (gnch r) gs)) <= fuel)%nat).
+  { unfold GLsum, empty_gst. rewrite Lsum_empty.
+    pose proof (list_sum_le (gnch r) (wt_of r) gs (gnch_le r)).
+    pose proof (sum_wt_le r Hwf gs Hnd_gs Hgs_ids) as H0. unfold fuel.
+    pose proof (Nat.le_trans _ _ _ H H0) as X. revert X.
+    generalize (list_sum (map (gnch r) gs)) (total_entries r). intros a b X. lia. }
   pose proof (feed_tags_run r Hwf fuel gs empty_gst ev4 (fun _ => False)
-                (empty_inv _ _ _ _ _ _ _ _ _) Hnd_gs (fun _ _ H => H) Hgn) as HG.
-  destruct (feed_tags fuel r gs empty_gst ev4) as [[gstate ev5]|m|m]; try assumption.
+                (empty_inv _ _ _ _ _ _ _ _ _) Hnd_gs (fun _ _ H => H) Hgn Hfuel_g) as HG.
+  destruct (feed_tags fuel r gs empty_gst ev4) as [[gstate ev5]|m|m]; try contradiction.
   destruct HG as (Hgrun & gl & Hgl & Hev5).
   assert (Hgwfn : forall g, In g gs -> wf_node N unit (GN r) (ids r) g).
   { intros g Hg. destruct (Hgn g Hg) as (ds & Hds). destruct (gnodes_wf_node r Hwf g ds Hds) as [H1 H2].
@@ -706,6 +786,7 @@ Proof.
               fuel gs gstate Hnd_gs Hgwfn Hgclosed Hgrun) as Hglog.
   cbn [log empty_gst empty_st app] in Hgl. rewrite Hgl in Hglog.
   rewrite (any_rec_false tstate (ids r) Htrecs), (any_rec_false gstate (ids r) Hgrecs). cbn [orb].
+  eexists. split; [reflexivity|].
   (* the numbers *)
   unfold history_of. rewrite fold_record_numeric.
   assert (Enum : filter numeric (ev5 ++ map (fun rt => EvRef (rt_name rt) (rt_oid rt) (rt_walk rt) (rt_isref rt) (rt_groups rt)) roots)
@@ -819,20 +900,16 @@ Qed.
 (* ---- projections used by the property files ---- *)
 Lemma census_exact r enum roots names :
   wf_b r = true -> contract r (walked roots) enum -> small r ->
-  match scan r enum roots names with
-  | SOk evs =>
+  exists evs, scan r enum roots names = SOk evs /\
       let h := history_of evs in
       let c := spec_census r (walked roots) in
       h_ncommits h = sat32 (n_commits c) /\ h_scommits h = sat64 (s_commits c) /\
       h_ntrees h = sat32 (n_trees c) /\ h_strees h = sat64 (s_trees c) /\ h_nentries h = sat64 (n_entries c) /\
       h_nblobs h = sat32 (n_blobs c) /\ h_sblobs h = sat64 (s_blobs c) /\
-      h_ntags h = sat32 (n_tags c)
-  | SPanic m => m = P_FUEL
-  | SErr _ => False
-  end.
+      h_ntags h = sat32 (n_tags c).
 Proof.
-  intros H1 H2 H3. pose proof (scan_correct r enum roots names H1 H2 H3) as H.
-  destruct (scan r enum roots names); auto. cbv zeta. rewrite H. repeat split; reflexivity.
+  intros H1 H2 H3. destruct (scan_correct r enum roots names H1 H2 H3) as (evs & E & H).
+  exists evs. split; [exact E|]. cbv zeta. rewrite H. repeat split; reflexivity.
 Qed.
 
 Lemma spec_census_reachable r roots1 roots2 :
@@ -841,50 +918,38 @@ Proof. intros H. unfold spec_census. rewrite H. reflexivity. Qed.
 
 Lemma maxima_exact r enum roots names :
   wf_b r = true -> contract r (walked roots) enum -> small r ->
-  match scan r enum roots names with
-  | SOk evs =>
+  exists evs, scan r enum roots names = SOk evs /\
       let h := history_of evs in
       let c := spec_census r (walked roots) in
       h_maxcommit h = sat32 (max_commit c) /\ h_maxparents h = sat32 (max_parents c) /\
-      h_maxentries h = sat32 (max_entries c) /\ h_maxblob h = sat32 (max_blob c)
-  | SPanic m => m = P_FUEL
-  | SErr _ => False
-  end.
+      h_maxentries h = sat32 (max_entries c) /\ h_maxblob h = sat32 (max_blob c).
 Proof.
-  intros H1 H2 H3. pose proof (scan_correct r enum roots names H1 H2 H3) as H.
-  destruct (scan r enum roots names); auto. cbv zeta. rewrite H. repeat split; reflexivity.
+  intros H1 H2 H3. destruct (scan_correct r enum roots names H1 H2 H3) as (evs & E & H).
+  exists evs. split; [exact E|]. cbv zeta. rewrite H. repeat split; reflexivity.
 Qed.
 
 Lemma depths_exact r enum roots names :
   wf_b r = true -> contract r (walked roots) enum -> small r ->
-  match scan r enum roots names with
-  | SOk evs =>
+  exists evs, scan r enum roots names = SOk evs /\
       let h := history_of evs in
       let c := spec_census r (walked roots) in
-      h_depth h = sat32 (hist_depth c) /\ h_tagdepth h = sat32 (tag_depth c)
-  | SPanic m => m = P_FUEL
-  | SErr _ => False
-  end.
+      h_depth h = sat32 (hist_depth c) /\ h_tagdepth h = sat32 (tag_depth c).
 Proof.
-  intros H1 H2 H3. pose proof (scan_correct r enum roots names H1 H2 H3) as H.
-  destruct (scan r enum roots names); auto. cbv zeta. rewrite H. repeat split; reflexivity.
+  intros H1 H2 H3. destruct (scan_correct r enum roots names H1 H2 H3) as (evs & E & H).
+  exists evs. split; [exact E|]. cbv zeta. rewrite H. repeat split; reflexivity.
 Qed.
 
 Lemma checkout_exact r enum roots names :
   wf_b r = true -> contract r (walked roots) enum -> small r ->
-  match scan r enum roots names with
-  | SOk evs =>
+  exists evs, scan r enum roots names = SOk evs /\
       let h := history_of evs in
       let c := spec_census r (walked roots) in
       h_xdepth h = sat32 (x_depth c) /\ h_xlen h = sat32 (x_len c) /\ h_xtrees h = sat32 (x_trees c) /\
       h_xblobs h = sat32 (x_blobs c) /\ h_xbsize h = sat64 (x_bsize c) /\ h_xlinks h = sat32 (x_links c) /\
-      h_xsubs h = sat32 (x_subs c)
-  | SPanic m => m = P_FUEL
-  | SErr _ => False
-  end.
+      h_xsubs h = sat32 (x_subs c).
 Proof.
-  intros H1 H2 H3. pose proof (scan_correct r enum roots names H1 H2 H3) as H.
-  destruct (scan r enum roots names); auto. cbv zeta. rewrite H. repeat split; reflexivity.
+  intros H1 H2 H3. destruct (scan_correct r enum roots names H1 H2 H3) as (evs & E & H).
+  exists evs. split; [exact E|]. cbv zeta. rewrite H. repeat split; reflexivity.
 Qed.
 
 (* two enumerations of the same graph that both satisfy the contract, and two
@@ -893,16 +958,13 @@ Lemma order_independent r enum1 enum2 roots1 roots2 names1 names2 :
   wf_b r = true -> small r ->
   contract r (walked roots1) enum1 -> contract r (walked roots2) enum2 ->
   reachable r (walked roots1) = reachable r (walked roots2) -> nrefs_of roots1 = nrefs_of roots2 ->
-  match scan r enum1 roots1 names1, scan r enum2 roots2 names2 with
-  | SOk e1, SOk e2 => history_of e1 = history_of e2
-  | SErr _, _ | _, SErr _ => False
-  | _, _ => True
-  end.
+  exists e1 e2, scan r enum1 roots1 names1 = SOk e1 /\ scan r enum2 roots2 names2 = SOk e2 /\
+                history_of e1 = history_of e2.
 Proof.
   intros Hwf Hs C1 C2 HR Hn.
-  pose proof (scan_correct r enum1 roots1 names1 Hwf C1 Hs) as H1.
-  pose proof (scan_correct r enum2 roots2 names2 Hwf C2 Hs) as H2.
-  destruct (scan r enum1 roots1 names1), (scan r enum2 roots2 names2); auto.
+  destruct (scan_correct r enum1 roots1 names1 Hwf C1 Hs) as (e1 & E1 & H1).
+  destruct (scan_correct r enum2 roots2 names2 Hwf C2 Hs) as (e2 & E2 & H2).
+  exists e1, e2. split; [exact E1|]. split; [exact E2|].
   rewrite H1, H2, Hn, (spec_census_reachable r _ _ HR). reflexivity.
 Qed.
 
